@@ -262,7 +262,7 @@ for (_n, _ndb, _rhs, _dec) in DS_CASES:
         it.summaries[f'{S}:LinearSolver.residual'] = residual
         watch = it.watches.setdefault(f'{S}:LDAWrapper._do_solve_1rhs', {})
         for nm in ('bnrm', 'beta', 'xadd', 'badd'):
-            watch[nm] = []
+            watch[nm] = V.GhostList(nm, 'LDAWrapper._do_solve_1rhs')
         x0v = CArr(np.array([ctx.sym(f'guess{i}', 'real') for i in range(n)], dtype=object), 'real') if with_x0 else None
         x0_before = list(x0v.data) if with_x0 else None
         ret = it.call(it.getattr(w, '_do_solve_1rhs'), [A, rhs, xs, bs, Builtin('solve_fn', solve_fn)], {'x0': x0v})
@@ -329,8 +329,12 @@ for (_n, _ndb, _rhs, _dec) in DS_CASES:
             # which iteration of the append loop produced pair k: vectors whose orthogonalised right-hand side vanishes are skipped (path condition)
             if k == ndb:
                 plan, pos, size = [], (ndb if (with_x0 and calls) else 0), ndb       # the projection of an initial guess computes one coefficient per stored pair first
+                if len(xs) > ndb:
+                    watch['bnrm'].count()           # pairs were appended but the local was never assigned: contract anchor lost (renamed local)
                 for i_it, nv in enumerate(watch['bnrm']):
                     bet_i = watch['beta'][pos:pos + size]
+                    if len(bet_i) != size:
+                        raise V.Unsupported("contract anchor lost: local 'beta' of LDAWrapper._do_solve_1rhs is not assigned once per stored pair")
                     pos += size
                     zero = V.cmp('==', nv, 0)
                     skipped = (zero is True) or (V.is_sym(zero) and ctx.implied(V.zbool(zero)))
